@@ -28,7 +28,7 @@ func init() {
 		Title: "Attestations and reports act only on a quorum of the providers named on the form",
 		Cases: func(t string) int { return tierN(t, 27*7, 27*7*12) },
 		Run:   runC14,
-		Rule: "case = one (form size 1..6, minimum 0..size) pair x one of 7 signature-sequence templates (one short of the minimum with repeats and unnamed signers (must never act); distinct named in order; every named twice; unnamed providers + the prover + a non-provider first; one named repeated min+2 times then the rest; signatures before the form exists and after it was consumed; PRNG order with repeats) x a provider population of size+1..9 with shared and distinct domains, run once for an attestation form and once for a report form on the same (prover, file); the (pair x template) grid is enumerated completely by the case index, populations and orders are drawn from the PRNG; " +
+		Rule: "case = one (form size 1..6, minimum 0..size) pair x one of 7 signature-sequence templates (one short of the minimum with repeats and unnamed signers (must never act); distinct named in order; every named twice; unnamed providers + the prover + a non-provider first; one named repeated min+2 times then the rest; signatures before the form exists and after it was consumed; PRNG order with repeats) x a provider population of size+1..9 with shared and distinct domains, run once for an attestation form and once for a report form on the same (prover, file); in the report phase a second report form on another (prover, file) with min-1 signatures is outstanding in 60% of the cases with min >= 2, and in 35% the chain is exported and restarted from its genesis file at a PRNG point of the signature sequence; the (pair x template) grid is enumerated completely by the case index, populations and orders are drawn from the PRNG; " +
 			"oracle after every Attest / Report / Request* message from queries Attestation / Report / Proof / File: the reference model's set of distinct named signers decides exactly when LastProven is refreshed (attest) or the prover is unlisted (report) and when the form disappears; nothing else about the proof, the file or the prover list may change; form composition at creation (size, distinct, registered providers holding >=1 proof, never the prover); " +
 			"non-trivial signature = (kind, size, min, template, quorum reached?)",
 		Assumptions: []string{
@@ -299,6 +299,33 @@ func runC14(rc *RunCtx) {
 			return
 		}
 
+		// report phase: a second report form on another (prover, file) pair, signed by fewer than the minimum, stays
+		// outstanding next to the one under test; signatures on it must never count for the form under test
+		decoy := false
+		if kind == "report" && min >= 2 && len(eligible) >= 2 && rc.Chance(0.6) {
+			D := eligible[rc.Intn(len(eligible))]
+			if D != noProof {
+				tx := c.DeliverAs(0, &storagetypes.MsgRequestReportForm{Creator: c.Accs[0].Bech, Prover: c.Accs[D].Bech, Merkle: fG.Root(), Owner: wG.OwnerAddr, Start: wG.Start})
+				var resp storagetypes.MsgRequestReportFormResponse
+				if tx.OK() && tx.MsgResponse(0, &resp) == nil && resp.Success {
+					decoy = true
+					signed := int64(0)
+					for _, a := range resp.Providers {
+						if signed >= min-1 {
+							break
+						}
+						for i := 2; i < stranger; i++ {
+							if c.Accs[i].Bech == a {
+								c.DeliverAs(i, &storagetypes.MsgReport{Creator: a, Prover: c.Accs[D].Bech, Merkle: fG.Root(), Owner: wG.OwnerAddr, Start: wG.Start})
+								signed++
+							}
+						}
+					}
+					rc.Logf("h=%d decoy report form against acc%d on the other file, %d of %d signatures", c.Height, D, signed, min)
+					rc.Count("decoy_report_forms", 1)
+				}
+			}
+		}
 		if tmpl == 4 { // signatures before the form exists
 			sign(eligible[0], "before-form")
 			sign(stranger, "before-form stranger")
@@ -375,7 +402,39 @@ func runC14(rc *RunCtx) {
 				add(a, "prng")
 			}
 		}
+		// report phase: the chain is (sometimes) exported and restarted from its genesis file in the middle of the
+		// signature sequence. Report forms are part of the genesis; the model carries on unchanged. (Not done in the
+		// attestation phase: proof records are not part of the genesis, a listed C19 finding, and an attestation acts
+		// on the proof record.)
+		restartAt := -1
+		if kind == "report" && rc.Chance(0.35) {
+			restartAt = rc.Intn(len(seq) + 1)
+		}
 		for i, st := range seq {
+			if i == restartAt {
+				if err := c.EndAndCommit(); err != nil {
+					rc.Abort("commit before export: " + err.Error())
+					return
+				}
+				exp, err := c.Export()
+				if err != nil {
+					rc.Abort("export: " + err.Error())
+					return
+				}
+				c2, err := chain.NewFromExport(c, exp)
+				if err != nil {
+					rc.Abort("restart from the exported genesis: " + err.Error())
+					return
+				}
+				defer c2.Close()
+				c = c2
+				s.c = c2
+				rc.Logf("exported at h=%d and restarted from the genesis file (decoy form outstanding: %v)", c.Height, decoy)
+				rc.Count("restarts_from_export", 1)
+				if !nb() {
+					return
+				}
+			}
 			sign(st[0].(int), st[1].(string))
 			if c.Dead {
 				return
@@ -396,7 +455,7 @@ func runC14(rc *RunCtx) {
 			}
 			sign(stranger, "after-consumed stranger")
 		}
-		rc.NonTrivial(fmt.Sprintf("%s/size%d/min%d/t%d/reached=%v", kind, size, min, tmpl, reached))
+		rc.NonTrivial(fmt.Sprintf("%s/size%d/min%d/t%d/reached=%v/decoy=%v/restart=%v", kind, size, min, tmpl, reached, decoy, restartAt >= 0))
 		rc.Count(kind+"_forms", 1)
 		if kind == "attest" && !reached {
 			// the report phase needs no left-over state from attest; forms are independent
